@@ -74,9 +74,10 @@ func (t *Translator) TransformStreamingResponse(ctx context.Context, openaiStrea
 func (t *Translator) transformStreamingSync(ctx context.Context, openaiStream io.Reader, w http.ResponseWriter, rc *http.ResponseController, state *StreamingState) error {
 	scanner := bufio.NewScanner(openaiStream)
 	// allow large deltas and tool arg chunks, prevents "token too long" errors
-	// initial buffer 64 KiB, max 1 MiB per SSE line (handles large tool arguments)
+	// initial buffer 64 KiB, max 32 MiB per SSE line (a whole tool call with a document as
+	// argument can arrive in a single chunk)
 	buf := make([]byte, 0, 64*1024)
-	scanner.Buffer(buf, 1<<20)
+	scanner.Buffer(buf, 32<<20)
 
 	for scanner.Scan() {
 		select {
